@@ -133,9 +133,10 @@ def replay_trace(unit, h, tr, bdir, repo, root, only_ptr=False):
         for k, v in tr.items(): f.write('  {"%s", %dL},\n' % (k, v))
         f.write('  {0, 0} };\n')
     harness = os.path.join(root, "cwrap", unit["harness"])
-    cmds = [["g++", "-std=c++17", "-O1", "-g", "-w", "-fsanitize=address,undefined", "-fno-sanitize-recover=all", "-DNDEBUG", "-DAMGCL_NO_BOOST", "-I" + repo, "-c", os.path.join(root, "cwrap", unit["wrapper"]), "-o", base + "_real.o"],
-            ["gcc", "-O0", "-g", "-w", "-fsanitize=address,undefined", "-fno-sanitize-recover=all", "-DREPLAY", "-DREPLAY_TABLE=\"%s\"" % tab, "-DREPLAY_FN=%s" % h["fn"]] + ["-D" + d for d in h.get("defines", [])] + ["-c", harness, "-o", base + "_h.o"],
-            ["g++", "-fsanitize=address,undefined", base + "_h.o", base + "_real.o", "-o", base]]
+    san = "-fsanitize=" + unit.get("replay_sanitize", "address,undefined")
+    cmds = [["g++", "-std=c++17", "-O1", "-g", "-w", san, "-fno-sanitize-recover=all", "-DNDEBUG", "-DAMGCL_NO_BOOST", "-I" + repo, "-c", os.path.join(root, "cwrap", unit["wrapper"]), "-o", base + "_real.o"],
+            ["gcc", "-O0", "-g", "-w", san, "-fno-sanitize-recover=all", "-DREPLAY", "-DREPLAY_TABLE=\"%s\"" % tab, "-DREPLAY_FN=%s" % h["fn"]] + ["-D" + d for d in h.get("defines", [])] + ["-c", harness, "-o", base + "_h.o"],
+            ["g++", san, base + "_h.o", base + "_real.o", "-o", base]]
     for c in cmds:
         rc, out, dt = sh(c, timeout=600)
         if rc != 0: open(base + ".log", "w").write(out); return False
